@@ -17,7 +17,9 @@ CHECKS = {
         text=("Lean theorems over the statement-by-statement model of spars.cpp (Model/Sparse.lean), for every size, sparsity pattern, "
               "insertion order and history: entry put/get/add exact and symmetric, AddTo accumulation insertion-order independent, "
               "SetValue / Periodicity / AntiPeriodicity yield exactly the constrained system (refinement of the linked-row code to "
-              "abstract matrices + abstract linear-algebra equivalences), CG recurrence residual = true residual. The model is tied "
+              "abstract matrices + abstract linear-algebra equivalences), MultA (scatter over the linked upper-triangle rows) = product with the "
+              "full symmetric matrix read through Get for every stored form Create/Put/AddTo can reach, hence one pass of the model's "
+              "own PCGSolve / PBCGSolve body keeps recurrence residual = true residual. The model is tied "
               "to the real CBigLinProb on every run by an in-process op-sequence harness (bit comparison with the Float instance, "
               "1e-11 comparison with the exact Rat instance) and the implementation's solve results are checked against an "
               "independent dense constrained solve. The complex solver (cspars.cpp without Newton matrices) is modelled too "
